@@ -21,12 +21,22 @@ def random_config(rng, want_class=None, timeout_choices=(None, 3600, 3600)):
 
 
 def hist_jobs(build, n, seed, props, n_events=120, ids_pool=(3, 4, 5, 6, 17), opts=None, want_class=None, cfg_fn=None, leaks=True,
-              tag="h", sample_every=None):
+              tag="h", sample_every=None, reload_share=0.25, vary_addr=0.5):
+    """Random-history jobs.  A share of them contains SIGUSR1 reloads that switch between service tables (names keep their
+    protocol); re-used ids come back with another address / port with probability vary_addr."""
     jobs = []
     for i in range(n):
         rng = random.Random("%s/%d/%d" % (tag, seed, i))
         cfg = cfg_fn(rng) if cfg_fn else random_config(rng, want_class)
         ids = list(ids_pool)[:rng.choice([3, 4, 5])] if len(ids_pool) >= 5 else list(ids_pool)
+        o = dict(opts or {})
+        o.setdefault("vary_addr", vary_addr)
+        rng2 = random.Random("%s/r/%d/%d" % (tag, seed, i))
+        if rng2.random() < reload_share:
+            w = dict(o.get("weights") or {})
+            w["reload"] = 3
+            o["weights"] = w
+            o["alt_services"] = gen.reload_tables(rng2, cfg.services)
         jobs.append(dict(build=build, config=cfg.to_json(), seed=rng.randrange(1 << 30), n=n_events, ids=ids, props=props,
-                         opts=dict(opts or {}), leaks=leaks, want_sample=(i < 2)))
+                         opts=o, leaks=leaks, want_sample=(i < 2)))
     return jobs
